@@ -1,1 +1,228 @@
-// harnesses for bencode (none yet)
+// C14 — no datagram can crash, abort or exhaust the node (piece A: the structural pre-check that
+// guards the decoder's length-prefixed allocations and its recursion).
+use super::*;
+
+/// Reference lexer, written token by token the way torrust-serde-bencode's `parse()` works:
+/// returns (kind, declared length, position after the token header) or None when the decoder
+/// would report a lexical error / end of input at `pos`.
+/// kind: 0 = int, 1 = bytes, 2 = list/dict start, 3 = end
+fn ref_token(b: &[u8], pos: usize) -> Option<(u8, usize, usize)> {
+    if pos >= b.len() {
+        return None;
+    }
+    let c = b[pos];
+    if c == b'i' {
+        let mut p = pos + 1;
+        while p < b.len() {
+            if b[p] == b'e' {
+                return Some((0, 0, p + 1));
+            }
+            p += 1;
+        }
+        None
+    } else if c >= b'0' && c <= b'9' {
+        // the decoder collects everything up to ':' and parses it as usize; for the comparison
+        // with the (<= 40 byte) rest of the input the value is only needed up to a small cap
+        let mut p = pos;
+        let mut len: u32 = 0; // saturates at >= 1000 ("larger than any input here")
+        let mut digits_only = true;
+        while p < b.len() && b[p] != b':' {
+            if b[p] >= b'0' && b[p] <= b'9' {
+                if len < 1000 {
+                    len = len * 10 + (b[p] - b'0') as u32;
+                }
+            } else {
+                digits_only = false;
+            }
+            p += 1;
+        }
+        if p >= b.len() || !digits_only {
+            return None; // end of stream / "can't parse as string length": no allocation happens
+        }
+        Some((1, len as usize, p + 1))
+    } else if c == b'l' || c == b'd' {
+        Some((2, 0, pos + 1))
+    } else if c == b'e' {
+        Some((3, 0, pos + 1))
+    } else {
+        None
+    }
+}
+
+/// What the property needs from an accepted input: walking the first value the way the decoder's
+/// lexer does, every byte string it would allocate fits the remaining input and the nesting stays
+/// within MAX_DEPTH.
+fn accepted_is_safe(b: &[u8]) -> bool {
+    let mut pos = 0;
+    let mut depth = 0usize;
+    let mut steps = 0;
+    while steps <= b.len() {
+        match ref_token(b, pos) {
+            None => return true, // the decoder stops here with an error
+            Some((1, len, after)) => {
+                if len > b.len() - after {
+                    return false; // would allocate more than the input holds
+                }
+                pos = after + len;
+            }
+            Some((2, _, after)) => {
+                depth += 1;
+                if depth > MAX_DEPTH {
+                    return false;
+                }
+                pos = after;
+            }
+            Some((3, _, after)) => {
+                if depth == 0 {
+                    return true; // decoder reports an unexpected end marker
+                }
+                depth -= 1;
+                pos = after;
+            }
+            Some((_, _, after)) => pos = after,
+        }
+        if depth == 0 {
+            return true; // first value complete: the decoder reads no further
+        }
+        steps += 1;
+    }
+    true
+}
+
+fn precheck_on(n: usize) {
+    let buf: [u8; 40] = kani::any();
+    let input = &buf[..n];
+    let r = check_structure(input);
+    if r.is_ok() {
+        assert!(accepted_is_safe(input), "C14: pre-check accepts an input whose string length or nesting is unsafe for the decoder");
+    }
+    kani::cover!(r.is_err(), "some input is rejected");
+    kani::cover!(r.is_ok(), "some input is accepted");
+}
+
+#[kani::proof]
+#[kani::unwind(10)]
+fn c14_precheck_any_8_bytes() {
+    precheck_on(8);
+}
+
+#[kani::proof]
+#[kani::unwind(14)]
+fn c14_precheck_any_12_bytes() {
+    precheck_on(12);
+}
+
+#[kani::proof]
+#[kani::unwind(18)]
+fn c14_precheck_any_16_bytes() {
+    precheck_on(16);
+}
+
+/// Length bombs: `d1:t<k digits>:` + tail, every digit symbolic (every magnitude up to and beyond
+/// 2^64): rejected unless the declared length fits the tail.
+fn length_bomb(digits: usize, tail: usize) {
+    let buf: [u8; 40] = kani::any();
+    let mut input = [0u8; 40];
+    input[0] = b'd';
+    input[1] = b'1';
+    input[2] = b':';
+    input[3] = b't';
+    // declared value <= tail (tail <= 9) iff all leading digits are 0 and the last digit <= tail
+    let mut leading_zero = true;
+    let mut i = 0;
+    while i < digits {
+        kani::assume(buf[i] >= b'0' && buf[i] <= b'9');
+        input[4 + i] = buf[i];
+        if i + 1 < digits && buf[i] != b'0' {
+            leading_zero = false;
+        }
+        i += 1;
+    }
+    let fits = leading_zero && (buf[digits - 1] - b'0') as usize <= tail;
+    input[4 + digits] = b':';
+    let mut j = 0;
+    while j < tail {
+        input[5 + digits + j] = buf[digits + j];
+        j += 1;
+    }
+    let n = 5 + digits + tail;
+    let r = check_structure(&input[..n]);
+    if !fits {
+        assert!(r.is_err(), "C14: a string length larger than the remaining input passes the pre-check");
+    }
+    kani::cover!(!fits && buf[0] == b'9', "a huge length is rejected");
+    kani::cover!(fits, "a fitting length exists");
+}
+
+#[kani::proof]
+#[kani::unwind(32)]
+fn c14_length_bomb_20_digits() {
+    length_bomb(20, 4);
+}
+
+#[kani::proof]
+#[kani::unwind(32)]
+fn c14_length_bomb_21_digits() {
+    length_bomb(21, 0);
+}
+
+#[kani::proof]
+#[kani::unwind(32)]
+fn c14_length_bomb_1_to_2_digits() {
+    length_bomb(1, 4);
+    length_bomb(2, 4);
+}
+
+/// Nesting bombs: k opening markers (symbolic l/d) : rejected as soon as k > MAX_DEPTH.
+#[kani::proof]
+#[kani::unwind(42)]
+fn c14_nesting_bomb() {
+    let buf: [u8; 40] = kani::any();
+    let mut input = [0u8; 40];
+    let mut i = 0;
+    while i < 40 {
+        input[i] = if buf[i] & 1 == 0 { b'l' } else { b'd' };
+        i += 1;
+    }
+    assert!(check_structure(&input[..40]).is_err(), "C14: 40 levels of nesting pass the pre-check");
+    assert!(check_structure(&input[..MAX_DEPTH + 1]).is_err(), "C14: MAX_DEPTH + 1 levels of nesting pass the pre-check");
+    kani::cover!(true, "end of harness reached");
+}
+
+/// No valid message is lost: every canonical encoding of the C13 shapes passes the pre-check
+/// (content bytes symbolic - ids, tokens and transaction ids may look like any bencode).
+#[kani::proof]
+#[kani::unwind(200)]
+fn c14_precheck_accepts_valid_messages() {
+    use crate::message::{Message, MessageBody, Request, Response, PingRequest, AnnouncePeerRequest, Error as KrpcError};
+    use crate::message::verif::ref_encode;
+    let which: u8 = kani::any();
+    kani::assume(which < 4);
+    let id: [u8; 20] = kani::any();
+    let ih: [u8; 20] = kani::any();
+    let t: [u8; 4] = kani::any();
+    let tok: [u8; 8] = kani::any();
+    let port: u16 = kani::any();
+    let a4: [u8; 4] = kani::any();
+    let m = match which {
+        0 => Message { transaction_id: t.to_vec(), body: MessageBody::Request(Request::Ping(PingRequest { id: id.into() })) },
+        1 => Message {
+            transaction_id: t.to_vec(),
+            body: MessageBody::Request(Request::AnnouncePeer(AnnouncePeerRequest { id: id.into(), info_hash: ih.into(), port: Some(port), token: tok.to_vec() })),
+        },
+        2 => Message {
+            transaction_id: t.to_vec(),
+            body: MessageBody::Response(Response {
+                id: id.into(),
+                values: vec![std::net::SocketAddr::from((std::net::Ipv4Addr::from(a4), port))],
+                nodes_v4: vec![crate::node::NodeHandle::new(ih.into(), std::net::SocketAddr::from((std::net::Ipv4Addr::from(a4), port)))],
+                nodes_v6: vec![],
+                token: Some(tok.to_vec()),
+            }),
+        },
+        _ => Message { transaction_id: t.to_vec(), body: MessageBody::Error(KrpcError { code: 203, message: String::from("abc") }) },
+    };
+    let r = ref_encode(&m);
+    assert!(check_structure(&r.buf[..r.len]).is_ok(), "C14: the pre-check rejects a valid message");
+    kani::cover!(true, "end of harness reached");
+}
